@@ -179,3 +179,8 @@ func (l *CaseList) N(quick, thorough int) int {
 	}
 	return quick
 }
+
+// SubRand derives an independent PRNG for a sub-stream of a case.
+func SubRand(seed, stream int64) *rand.Rand {
+	return rand.New(rand.NewSource(seed*1315423911 + stream*2654435761 + 17))
+}
